@@ -22,7 +22,10 @@ RULE = ("(a) atomic: EncodeState.emplace_atomic_value / DecodeState.extract_atom
         "(b) composite: odxgen documents through the XML loader (all standard-length integer objects bit length x position x order; "
         "BYTE-SIZE structures x offsets; random nested composites incl. deliberately overlapping layouts) x generated values; each PDU is "
         "compared with the Lean *Spec* (lean/OdxVerif/Spec/Layout.lean, positional reference interpreter) and the overlap warning with the "
-        "spec's overlap predicate; (c) every case is run under both bitstruct backends. distinct = distinct (description, value, trigger) or "
+        "spec's overlap predicate; where the Lean Spec does not cover a construct (non-identical compu methods, plain BIT-MASK) the PDU is compared "
+        "with the Python reference interpreter odxgen/refpdu.py instead; text tables over signed/unsigned integers x COMPU-INVERSE-VALUE "
+        "absent/lower/upper/0/middle encoded with every text; xsd:boolean attributes are spelled true/1 and false/0; "
+        "(c) every case is run under both bitstruct backends. distinct = distinct (description, value, trigger) or "
         "atomic case; non-trivial = the encoder accepted")
 TRUSTED = ["Spec/Layout.lean is hand-written from the ODX positional rules, independently of Model/Codec.lean and of the odxtools source; "
            "it covers: the 4 diag-coded types without BIT-MASK, identical compu method, structures (BYTE-SIZE), the four field kinds, "
